@@ -82,6 +82,8 @@ void produce(int p, int nmsg, int firstIndex)
         f["func"] = func;
         f["cat"] = cat;
         f["tid"] = tid;
+        f["pre"] = 0;
+        f["fmt"] = QString();
         QJsonObject b;
         b["e"] = "CallBegin";
         b["t"] = QString::fromStdString(me);
